@@ -81,6 +81,7 @@ Diff(E, L) ==
     (IF Len(E.cl) # Len(L.cl) THEN {<<"cl.len", "">>}
      ELSE UNION {
         (IF E.cl[k].av # L.cl[k].av THEN {<<"cl", "av">>} ELSE {}) \cup
+        (IF "agg" \in DOMAIN L.cl[k] /\ L.cl[k].agg # 1 THEN {<<"cl", "agg">>} ELSE {}) \cup
         (IF AsSet(E.cl[k].occ) # AsSet(L.cl[k].occ) THEN {<<"cl", "occ">>} ELSE {}) \cup
         (IF AsSet(E.cl[k].inpool) # AsSet(L.cl[k].inpool) THEN {<<"cl", "inpool">>} ELSE {}) \cup
         (IF AsSet(E.cl[k].pend) # AsSet(L.cl[k].pend) THEN {<<"cl", "pend">>} ELSE {}) \cup
@@ -227,7 +228,8 @@ Next ==
                      \cup (IF r.ty = E_FINISHED /\ r.t <= Len(Sx.tk) /\ Sx.tk[r.t].cond /\ h.err = "" /\ ~HasExc(r)
                               /\ L.ts[r.t].st = COMPLETED /\ Children(Sx, r.t) # <<>>
                               /\ (\A i \in 1..Len(Children(Sx, r.t)) : L.ts[Children(Sx, r.t)[i]].st = CANCELLED)
-                              /\ (\E i \in 1..Len(Children(Sx, r.t)) : Sx.ts[Children(Sx, r.t)[i]].st # CANCELLED)
+                              \* (a policy that cancelled the taken branch beforehand leaves nothing to release: not judged)
+                              /\ (\A i \in 1..Len(Children(Sx, r.t)) : Sx.ts[Children(Sx, r.t)[i]].st # CANCELLED)
                            THEN {<<"inv", "C07_CompletedConditionalReleasesNone">>} ELSE {})
                      \cup DrawViol(Sx, r)
                      \cup InvViol(World, L) \cup EdgeViol(Sx, L)
